@@ -4,7 +4,7 @@
    continuation, [resume] = the next ParseTokens call), regexes generated from lexer.go. *)
 From Coq Require Import ZArith List Bool.
 From ZV Require Import Model.Regex Generated.LexTables Model.Lexer Model.Reader Model.TokScan Proofs.LexerProofs Proofs.ReaderProofs
-  Proofs.RegexProofs Proofs.ReaderTotal Proofs.LexerWF Proofs.ReaderUnfinished Proofs.SugarTokens Proofs.ScanSim Proofs.LexerBC Proofs.Unfinished Proofs.OpSpacing Proofs.ReaderFinal Model.ReaderSession Proofs.ReaderSession.
+  Proofs.RegexProofs Proofs.ReaderTotal Proofs.LexerWF Proofs.ReaderUnfinished Proofs.SugarTokens Proofs.ScanSim Proofs.LexerBC Proofs.Unfinished Proofs.OpSpacing Proofs.ReaderFinal Model.ReaderSession Proofs.ReaderSession Proofs.ReaderFuelAdequate Proofs.UnfinishedMore.
 Import ListNotations.
 Open Scope Z_scope.
 
@@ -182,6 +182,122 @@ Theorem more_top_unfinished : forall fuel text acc f s',
   unfinished text = Some true.
 Proof. exact Unfinished.more_top_unfinished. Qed.
 Print Assumptions more_top_unfinished.
+
+(* ---- 5d. the other direction, "unfinished -> more input", for ALL texts (Proofs/UnfinishedMore.v).
+   Full statement:  lexically_ok text -> unfinished text = Some true -> parse text = NeedMore.
+   It is FALSE of the faithful model (unfinished_needmore_refuted): a hard error of the PARSER wins over
+   the request for more input, whether it precedes the open construct ("(](") or lies inside it (a number
+   literal out of range "(99999999999999999999", a dotted pair with two tails "(a \ b c").  This is the
+   intended behaviour of parser.go (no finding: the REPL must report `(]` at once), and the finding
+   sign-symbol-at-end does not touch this direction.  The exact characterisation, all texts:
+   (C) unfinished_more_or_err: lexically_ok -> unfinished -> NeedMore or Err (never Done, never a panic;
+       StFuel is the model's own out-of-fuel outcome);
+   (D) error_persists: a hard error is final — parse text = Err -> parse (text ++ newline ++ more) = Err
+       for EVERY continuation (the whole outcome is kept: final_outcome_persists);
+   (E) unfinished_prefix_asks_more: an unfinished text that is the beginning, up to a line end, of ANY text
+       whose parse is not a hard error (and for which the fuel suffices) asks for more input — no fuel
+       condition on the beginning itself.  By (D) the side condition excludes exactly the texts on which
+       no continuation can ever be accepted: those whose token stream already holds a parser error
+       (the OErr sites of Reader.v reachable with q_err = false: a closing bracket / backslash / stray
+       token where an expression must start, a number literal that strconv rejects, a dotted pair not
+       closed after its tail).
+   (F) unfinished_more_iff_no_error: for unfinished texts, NeedMore <-> not Err. ---- *)
+Theorem unfinished_more_or_err : forall fuel text s',
+  lex_all init_lstate (text ++ nl) = LOk s' ->
+  unfinished text = Some true ->
+  status_of fuel text = StMore \/ status_of fuel text = StErr \/ status_of fuel text = StFuel.
+Proof. exact UnfinishedMore.unfinished_more_or_err. Qed.
+Print Assumptions unfinished_more_or_err.
+
+Theorem final_outcome_persists : forall cfix fuel text more,
+  fin (parse_whole true cfix fuel text) = true ->
+  parse_whole true cfix fuel (text ++ nl ++ more) = parse_whole true cfix fuel text.
+Proof. exact UnfinishedMore.final_outcome_persists. Qed.
+Print Assumptions final_outcome_persists.
+
+Theorem error_persists : forall cfix fuel text more,
+  fst (observe (parse_whole true cfix fuel text)) = StErr ->
+  fst (observe (parse_whole true cfix fuel (text ++ nl ++ more))) = StErr.
+Proof. exact UnfinishedMore.error_persists. Qed.
+Print Assumptions error_persists.
+
+Theorem unfinished_prefix_asks_more : forall fuel text more s',
+  lex_all init_lstate (text ++ nl) = LOk s' ->
+  unfinished text = Some true ->
+  status_of fuel (text ++ nl ++ more) <> StErr ->
+  status_of fuel (text ++ nl ++ more) <> StFuel ->
+  status_of fuel text = StMore.
+Proof. exact UnfinishedMore.unfinished_prefix_asks_more. Qed.
+Print Assumptions unfinished_prefix_asks_more.
+
+Theorem unfinished_more_iff_no_error : forall fuel text s',
+  lex_all init_lstate (text ++ nl) = LOk s' ->
+  unfinished text = Some true ->
+  status_of fuel text <> StFuel ->
+  (status_of fuel text = StMore <-> status_of fuel text <> StErr).
+Proof. exact UnfinishedMore.unfinished_more_iff_no_error. Qed.
+Print Assumptions unfinished_more_iff_no_error.
+
+(* (G) the model's fuel is adequate (Proofs/ReaderFuelAdequate.v, a fifth mutual induction over the reader
+   with the measure "queued tokens, '{' counted twice"): with fuel >= 4 * (number of tokens) + 2 the
+   out-of-fuel outcome does not occur — any text, any parser state before ResetAddNewInput, both model
+   flags.  With it (C), (E), (F) lose the StFuel case. *)
+Theorem enough_fuel : forall strict cfix fuel p text,
+  (4 * length (text_tokens text) + 2 <= fuel)%nat ->
+  fst (observe (parse_after strict cfix fuel p text)) <> StFuel.
+Proof. intros. apply ReaderFuelAdequate.is_fuel_status. apply ReaderFuelAdequate.enough_fuel. assumption. Qed.
+Print Assumptions enough_fuel.
+
+Theorem unfinished_more_or_err_fueled : forall fuel text s',
+  (4 * length (text_tokens text) + 2 <= fuel)%nat ->
+  lex_all init_lstate (text ++ nl) = LOk s' ->
+  unfinished text = Some true ->
+  status_of fuel text = StMore \/ status_of fuel text = StErr.
+Proof. exact UnfinishedMore.unfinished_more_or_err_fueled. Qed.
+Print Assumptions unfinished_more_or_err_fueled.
+
+Theorem unfinished_prefix_asks_more_fueled : forall fuel text more s',
+  (4 * length (text_tokens (text ++ nl ++ more)) + 2 <= fuel)%nat ->
+  lex_all init_lstate (text ++ nl) = LOk s' ->
+  unfinished text = Some true ->
+  status_of fuel (text ++ nl ++ more) <> StErr ->
+  status_of fuel text = StMore.
+Proof. exact UnfinishedMore.unfinished_prefix_asks_more_fueled. Qed.
+Print Assumptions unfinished_prefix_asks_more_fueled.
+
+Theorem unfinished_more_iff_no_error_fueled : forall fuel text s',
+  (4 * length (text_tokens text) + 2 <= fuel)%nat ->
+  lex_all init_lstate (text ++ nl) = LOk s' ->
+  unfinished text = Some true ->
+  (status_of fuel text = StMore <-> status_of fuel text <> StErr).
+Proof. exact UnfinishedMore.unfinished_more_iff_no_error_fueled. Qed.
+Print Assumptions unfinished_more_iff_no_error_fueled.
+
+(* the fuel bound of (G) is met by the example below: 13 tokens for the long text, fuel 100 *)
+Example ex_fuel_bound :
+  (4 * length (text_tokens ([40; 100; 101; 102; 32; 102; 32; 91; 97] ++ nl ++ [98; 93; 32; 49; 41])) + 2 <=? 100)%nat = true.
+Proof. vm_compute. reflexivity. Qed.
+
+Theorem unfinished_needmore_refuted : exists text s',
+  lex_all init_lstate (text ++ nl) = LOk s' /\ unfinished text = Some true /\ status_of 100 text = StErr.
+Proof. exact UnfinishedMore.unfinished_needmore_refuted. Qed.
+Print Assumptions unfinished_needmore_refuted.
+
+Theorem unfinished_needmore_refuted_inside : forall text, In text [w_inside_num; w_inside_dot] ->
+  lres_ok (lex_all init_lstate (text ++ nl)) = true /\ unfinished text = Some true /\ status_of 100 text = StErr.
+Proof. exact UnfinishedMore.unfinished_needmore_refuted_inside. Qed.
+Print Assumptions unfinished_needmore_refuted_inside.
+
+(* non-vacuity of (C)-(F): "(def f [a" is lexically correct, unfinished, the beginning of
+   "(def f [a<nl>b] 1)" (Done) and asks for more input; "(]" is an error and stays one whatever follows *)
+Example ex_unfinished_prefix :
+  lres_ok (lex_all init_lstate ([40; 100; 101; 102; 32; 102; 32; 91; 97] ++ nl)) = true /\
+  unfinished [40; 100; 101; 102; 32; 102; 32; 91; 97] = Some true /\
+  status_of 100 ([40; 100; 101; 102; 32; 102; 32; 91; 97] ++ nl ++ [98; 93; 32; 49; 41]) = StDone /\
+  status_of 100 [40; 100; 101; 102; 32; 102; 32; 91; 97] = StMore /\
+  status_of 100 [40; 93] = StErr /\ fin (parse_whole true true 100 [40; 93]) = true /\
+  status_of 100 ([40; 93] ++ nl ++ [40; 41]) = StErr.
+Proof. vm_compute. repeat split; reflexivity. Qed.
 
 (* ---- 6. the last token is never lost: after the final newline that WholeText supplies, a lexer
    in normal mode has nothing pending in its atom buffer (every atom became a token) ---- *)
